@@ -448,7 +448,7 @@ def compute_right_axis(
         -np.inf, -h / 2
     ) + levy_measure.integrate(h / 2, np.inf)
     intensity_of_right_jumps = levy_measure.integrate(h / 2, np.inf)
-    right_axis = np.array([0, h])
+    right_axis = np.array([0, h], dtype=float)
 
     def fun_right(left, p):
         def to_call(right):
@@ -501,7 +501,7 @@ def compute_left_axis(
         -np.inf, -h / 2
     ) + levy_measure.integrate(h / 2, np.inf)
     intensity_of_left_jumps = levy_measure.integrate(-np.inf, -h / 2)
-    left_axis = np.array([-h, 0])
+    left_axis = np.array([-h, 0], dtype=float)
 
     def fun_left(right, p):
         def to_call(left):
